@@ -379,3 +379,6 @@ def run(ck):
                             "re-entry: coder->sequence is advanced before any non-fatal return")
     reinit.check_init_once(ck, prog, "C06-INITONCE")
     ck.floor("C06-INITONCE", 10)
+    ck.rule("C06-ACCUM", "a member that a resumable state tests and stores to while it can be re-entered is updated from "
+                         "its old value, not only from what the current call saw")
+    reinit.check_accumulators(ck, prog, "C06-ACCUM")
